@@ -122,6 +122,11 @@ var corpus = []string{
 	"SELECT t.a, u.x FROM t.csv t JOIN u.csv u ON u.x <> 0 WHERE 10 / u.x > 1",
 	"SELECT t.b, u.y FROM t.csv t LOOKUP JOIN u.csv u ON t.a = u.x WHERE u.y > 1 AND t.b < 5",
 	"SELECT u.y FROM u.csv u WHERE u.x > 0",
+	// two cross-branch equalities that share one side: each must end up in the join key (or stay in the filter)
+	"SELECT t.a, u.x, u.y FROM t.csv t JOIN u.csv u ON t.a = u.x AND t.a = u.y",
+	"SELECT t.a, t.b, u.x FROM t.csv t JOIN u.csv u ON t.a = u.x WHERE t.b = u.x",
+	"SELECT t.b, u.x, u.y FROM t.csv t JOIN u.csv u ON u.x = t.b WHERE u.y = t.b + 3",
+	"SELECT t.a, u.y FROM t.csv t JOIN u.csv u ON t.a = u.x AND t.b = u.x AND t.a + 1 = u.y",
 	"WITH ww AS (SELECT * FROM max_diff_watermark(source=>TABLE(ev.csv), max_diff=>INTERVAL 1 SECOND, time_field=>DESCRIPTOR(ts)) c), wt AS (SELECT * FROM tumble(source=>TABLE(ww), window_length=>INTERVAL 1 MINUTE) c) SELECT window_end, COUNT(*) AS c, SUM(val) AS s FROM wt GROUP BY window_end",
 }
 
